@@ -17,6 +17,15 @@ pub fn verif_format() -> String
 // float equality as computed by `f64 == f64` in exec code (IEEE), uninterpreted here.
 pub uninterp spec fn feq(a: f64, b: f64) -> bool;
 
+// TRUSTED(T6): IEEE-754 comparison of two f64 values is a deterministic function of the two values
+// (Verus leaves `obeys_*_spec` for f64 undetermined; this axiom fixes it to true, which makes the exec
+// operators == < <= > >= on f64 equal to vstd's spec functions eq_spec / partial_cmp_spec).
+pub axiom fn axiom_f64_cmp_is_a_function()
+    ensures
+        <f64 as vstd::std_specs::cmp::PartialEqSpec>::obeys_eq_spec(),
+        <f64 as vstd::std_specs::cmp::PartialOrdSpec>::obeys_partial_cmp_spec();
+
+
 // Structural equality = meaning assumed for #[derive(PartialEq)]  TRUSTED(T1)
 pub open spec fn ueq(a: Unifiable, b: Unifiable) -> bool
     decreases a,
